@@ -37,8 +37,8 @@ static Json make_plan(uint64_t base_seed, std::string const& profile, long i, st
     Rng r(s);
     KindInfo const& ki = kinds[r.below(kinds.size())];
     // non-propagating unequal allocators are where the protocol is hardest: weight them up
-    unsigned a = (unsigned)r.below(5);
-    char const* al = a < 1 ? ALLOCS[0] : a < 3 ? ALLOCS[1] : ALLOCS[2];
+    unsigned a = (unsigned)r.below(std_version() >= 17 ? 7 : 5);
+    char const* al = a < 1 ? ALLOCS[0] : a < 3 ? ALLOCS[1] : a < 5 ? ALLOCS[2] : "pmr";
     GenCfg cfg = ki.cfg;
     cfg.stateful = a >= 1;
     Json p = gen_plan(r.next(), profile, ki.name, al, cfg);
